@@ -989,6 +989,23 @@ func toFloat(v reflect.Value) float64 {
 	panic(fmt.Errorf("type: %q can't be converted to float64", v.Type()))
 }
 
+// intDivisor returns the right operand of an integer division or remainder; zero is an error.
+func intDivisor(node *MultiplicativeExprNode, right reflect.Value) int64 {
+	d := toInt(right)
+	if d == 0 {
+		node.Right.errorf("integer division by zero")
+	}
+	return d
+}
+
+func uintDivisor(node *MultiplicativeExprNode, right reflect.Value) uint64 {
+	d := toUint(right)
+	if d == 0 {
+		node.Right.errorf("integer division by zero")
+	}
+	return d
+}
+
 func (st *Runtime) evalMultiplicativeExpression(node *MultiplicativeExprNode) reflect.Value {
 	left, right := st.evalPrimaryExpressionGroup(node.Left), st.evalPrimaryExpressionGroup(node.Right)
 	kind := left.Kind()
@@ -1021,7 +1038,7 @@ func (st *Runtime) evalMultiplicativeExpression(node *MultiplicativeExprNode) re
 			if needFloatPromotion {
 				left = reflect.ValueOf(float64(left.Int()) / right.Float())
 			} else {
-				left = reflect.ValueOf(left.Int() / toInt(right))
+				left = reflect.ValueOf(left.Int() / intDivisor(node, right))
 			}
 		} else if isFloat(kind) {
 			left = reflect.ValueOf(left.Float() / toFloat(right))
@@ -1029,18 +1046,18 @@ func (st *Runtime) evalMultiplicativeExpression(node *MultiplicativeExprNode) re
 			if needFloatPromotion {
 				left = reflect.ValueOf(float64(left.Uint()) / right.Float())
 			} else {
-				left = reflect.ValueOf(left.Uint() / toUint(right))
+				left = reflect.ValueOf(left.Uint() / uintDivisor(node, right))
 			}
 		} else {
 			node.Left.errorf("a non numeric value in multiplicative expression")
 		}
 	case itemMod:
 		if isInt(kind) {
-			left = reflect.ValueOf(left.Int() % toInt(right))
+			left = reflect.ValueOf(left.Int() % intDivisor(node, right))
 		} else if isFloat(kind) {
-			left = reflect.ValueOf(int64(left.Float()) % toInt(right))
+			left = reflect.ValueOf(int64(left.Float()) % intDivisor(node, right))
 		} else if isUint(kind) {
-			left = reflect.ValueOf(left.Uint() % toUint(right))
+			left = reflect.ValueOf(left.Uint() % uintDivisor(node, right))
 		} else {
 			node.Left.errorf("a non numeric value in multiplicative expression")
 		}
